@@ -10,6 +10,11 @@ From Verif Require Import UnionDeepEnc UnionDeepEncProofs.
 From Verif Require LitEmit K22Proofs PyLit PyLitProofs PyStrLit.
 From VerifGen Require K22.
 From VerifGen Require K21.
+From Verif Require Import UnionDispatch K43Proofs.
+From Verif Require Import UnionMember.
+From Verif Require Import ScalarCreators K43aProofs.
+From VerifGen Require Import K43a.
+From VerifGen Require Import K43.
 Import ListNotations.
 Open Scope string_scope.
 Open Scope Z_scope.
@@ -252,6 +257,170 @@ Proof.
 Qed.
 Print Assumptions C11_opt.
 
+(* ---------- K43: the translated dispatch at union / Optional / type variable positions ---------- *)
+(* K43.is_optional, not_none_type_arg, is_type_var_any, expr_or_maybe_none and the union / type variable
+   branches of unpack_special_typing_primitive / pack_special_typing_primitive are re-translated from /repo
+   on every run.  dty / dspec / dexpr: what these functions read of a type / ValueSpec and the expression
+   they return; xden / pden: its meaning in terms of opt_dec / union_dec / pack_union. *)
+
+(* which unions are the Optional short-circuit: exactly two arguments, one resolving to NoneType *)
+Theorem C11_is_optional_spec : forall rtp t,
+  is_optional t rtp = match t with DUnion [a; b] => rnone rtp a || rnone rtp b | _ => false end.
+Proof. exact is_optional_spec. Qed.
+Print Assumptions C11_is_optional_spec.
+
+(* which argument it delegates to: the first that does not resolve to NoneType *)
+Theorem C11_not_none_arg_spec : forall rtp l, not_none_type_arg l rtp = find (fun t => negb (rnone rtp t)) l.
+Proof. exact not_none_spec. Qed.
+Print Assumptions C11_not_none_arg_spec.
+
+(* a union position (no Discriminator annotation): short-circuit or the generated union method *)
+Theorem C11_union_dispatch_correct : forall co D eid rtp args c,
+  xden co D eid (unpack_special_typing_primitive rtp (DS (DUnion args) c false)) =
+    if is_optional (DUnion args) rtp
+    then (if c then opt_dec (D (not_none_type_arg args rtp)) else D (not_none_type_arg args rtp))
+    else union_dec co (map (dmember D eid) args).
+Proof. exact unpack_union_dispatch. Qed.
+Print Assumptions C11_union_dispatch_correct.
+
+(* a type variable position: Any-like -> the value; constrained -> union of the constraints (default / bound
+   ignored); otherwise Optional[default, else bound] *)
+Theorem C11_typevar_dispatch_correct : forall co D eid rtp n cs b d c,
+  let t := DTypeVar n false cs b d in
+  xden co D eid (unpack_special_typing_primitive rtp (DS t c false)) =
+    if is_type_var_any t then Some
+    else match cs with
+         | [] => let fb := D (match d with Some x => Some x | None => b end) in if c then opt_dec fb else fb
+         | _ => union_dec co (map (dmember D eid) cs) end.
+Proof. exact unpack_typevar_dispatch. Qed.
+Print Assumptions C11_typevar_dispatch_correct.
+
+(* ... which is the hand-written typevar_dec of C11_typevar_partial *)
+Theorem C11_typevar_dispatch_model : forall co D eid rtp n cs b d dd,
+  let t := DTypeVar n false cs b d in
+  is_type_var_any t = false ->
+  xden co D eid (unpack_special_typing_primitive rtp (DS t true false)) dd =
+    typevar_dec co (map (dmember D eid) cs) (D (match d with Some x => Some x | None => b end)) dd.
+Proof. exact unpack_typevar_dispatch_model. Qed.
+Print Assumptions C11_typevar_dispatch_model.
+
+(* FULL strength on the two-member Optional form, in either order: no domain predicate *)
+Theorem C11_optional_position_full : forall co D eid rtp a c d,
+  dwf co D -> rnone rtp a = false -> is_nonetype a = false -> c = true ->
+  xden co D eid (unpack_special_typing_primitive rtp (DS (DUnion [a; DScalar KNone]) c false)) d
+    = ref_union co (map (dmember D eid) [a; DScalar KNone]) d /\
+  xden co D eid (unpack_special_typing_primitive rtp (DS (DUnion [DScalar KNone; a]) c false)) d
+    = ref_union co (map (dmember D eid) [DScalar KNone; a]) d.
+Proof. exact optional_position_full. Qed.
+Print Assumptions C11_optional_position_full.
+
+(* every union position: the statement of the property over what the CURRENT SOURCE dispatches to *)
+Definition C11_union_position_full : Prop :=
+  forall co D eid rtp args d, dwf co D -> rtp_inert rtp args -> NoDup args ->
+    coherent (map (dmember D eid) args) d ->
+    xden co D eid (unpack_special_typing_primitive rtp (DS (DUnion args) true false)) d
+      = ref_union co (map (dmember D eid) args) d.
+
+Theorem C11_union_position_partial : forall co D eid rtp args d,
+  dwf co D -> rtp_inert rtp args -> NoDup args ->
+  coherent (map (dmember D eid) args) d ->
+  (is_optional (DUnion args) rtp = true \/
+   (none_safe (map (dmember D eid) args) d = true /\ no_shadow (map (dmember D eid) args) d = true)) ->
+  xden co D eid (unpack_special_typing_primitive rtp (DS (DUnion args) true false)) d
+    = ref_union co (map (dmember D eid) args) d.
+Proof. exact union_position_partial. Qed.
+Print Assumptions C11_union_position_partial.
+
+(* witness coercions that are the identity on the exact class (dwf) *)
+Definition w_co2 (k: skind) (d: uv) : option uv :=
+  if has_kind k d then Some d else match k, d with KInt, UStr "1" => Some (UInt 1) | _, _ => None end.
+Definition w_D (t: option dty) : uv -> option uv :=
+  match t with
+  | Some (DScalar KNone) | None => fun _ => Some UNone
+  | Some (DScalar k) => w_co2 k
+  | Some (DPlain 0) => w_date
+  | _ => fun _ => None end.
+Definition w_eid (t: dty) : nat := match t with DPlain n => n | _ => 99%nat end.
+
+Lemma w_dwf : dwf w_co2 w_D.
+Proof.
+  intros k Hk. split.
+  - destruct k; try reflexivity. contradiction Hk; reflexivity.
+  - intros x Hx. unfold w_co2, has_kind. rewrite Hx. destruct k; reflexivity.
+Qed.
+
+(* Union[int, None, date] at a position <- "garbage": dispatched to the union method, None fallback (D2) *)
+Theorem C11_union_position_refuted : ~ C11_union_position_full.
+Proof.
+  intro H.
+  specialize (H w_co2 w_D w_eid no_rtp [DScalar KInt; DScalar KNone; DPlain 0%nat] (UStr "garbage") w_dwf
+                (no_rtp_inert _)).
+  assert (Hnd: NoDup [DScalar KInt; DScalar KNone; DPlain 0%nat]).
+  { repeat constructor; simpl; intuition discriminate. }
+  assert (Hc: coherent (map (dmember w_D w_eid) [DScalar KInt; DScalar KNone; DPlain 0%nat]) (UStr "garbage")).
+  { apply nodup_coherent. simpl. repeat constructor; simpl; intuition discriminate. }
+  specialize (H Hnd Hc). discriminate H.
+Qed.
+Print Assumptions C11_union_position_refuted.
+
+(* both directions take the same decision *)
+Theorem C11_dispatch_symmetric : forall rtp t c,
+  pack_special_typing_primitive rtp (DS t c false) = unpack_special_typing_primitive rtp (DS t c false).
+Proof. exact dispatch_symmetric. Qed.
+Print Assumptions C11_dispatch_symmetric.
+
+(* Optional[a], serialization: None as None, anything else by a's packer; argument order irrelevant *)
+Theorem C11_optional_encode : forall P pcls pid eid rtp a v,
+  rnone rtp a = false ->
+  (pid a = true -> P (Some a) v = Some v) ->
+  let e := pack_special_typing_primitive rtp (DS (DUnion [a; DScalar KNone]) true false) in
+  let e' := pack_special_typing_primitive rtp (DS (DUnion [DScalar KNone; a]) true false) in
+  pden P pcls pid eid e v = (if is_none v then Some UNone else p_out (dpmember P pcls pid eid a) v) /\
+  pden P pcls pid eid e' v = pden P pcls pid eid e v.
+Proof. exact optional_encode. Qed.
+Print Assumptions C11_optional_encode.
+
+(* the None test is made exactly once, by the field (nullable: compiled with could_be_none = False) or by
+   expr_or_maybe_none *)
+Theorem C11_field_none_test_once : forall co D eid nullable e d,
+  field_dec nullable (xden co D eid (expr_or_maybe_none (DS DAny (negb nullable) false) e)) d = opt_dec (xden co D eid e) d.
+Proof. exact field_none_test_once. Qed.
+Print Assumptions C11_field_none_test_once.
+
+(* what runs before the dispatch in the registries: user overrides (C10), SerializableType, dataclasses,
+   Final, Any -- none of them answers for a plain Union / Optional / type variable position *)
+Example C11_creators_before :
+  unpack_creators_before = ["unpack_type_with_overridden_deserialization"; "unpack_serializable_type";
+                            "unpack_generic_serializable_type"; "unpack_dataclass"; "unpack_final"; "unpack_any"]%string /\
+  pack_creators_before = ["pack_type_with_overridden_serialization"; "pack_serializable_type";
+                          "pack_generic_serializable_type"; "pack_dataclass"; "pack_final"; "pack_any"]%string.
+Proof. split; reflexivity. Qed.
+
+Example C11_dispatch_nonvacuous :
+  let tv := DTypeVar 7 false [] None None in
+  (* Optional[date] / Union[None, date]: short-circuit on date *)
+  unpack_special_typing_primitive no_rtp (DS (DUnion [DPlain 0; DScalar KNone]) true false) = XOrNone (XReg (Some (DPlain 0%nat))) /\
+  unpack_special_typing_primitive no_rtp (DS (DUnion [DScalar KNone; DPlain 0]) false false) = XReg (Some (DPlain 0%nat)) /\
+  (* Optional[Union[int, date]] is Union[int, date, None]: the union method *)
+  unpack_special_typing_primitive no_rtp (DS (DUnion [DScalar KInt; DPlain 0; DScalar KNone]) true false)
+    = XUnion [DScalar KInt; DPlain 0%nat; DScalar KNone] /\
+  (* Union[T, date] in a class specialised with T = None *)
+  unpack_special_typing_primitive (fun n => if Nat.eqb n 7 then Some (DScalar KNone) else None) (DS (DUnion [tv; DPlain 0]) true false)
+    = XOrNone (XReg (Some (DPlain 0%nat))) /\
+  (* TypeVar("T", int, str, default=str): the constraints; TypeVar("T", bound=date): Optional[date]; TypeVar("T"): the value *)
+  unpack_special_typing_primitive no_rtp (DS (DTypeVar 1 false [DScalar KInt; DScalar KStr] None (Some (DScalar KStr))) true false)
+    = XTypeVar [DScalar KInt; DScalar KStr] /\
+  pack_special_typing_primitive no_rtp (DS (DTypeVar 1 false [] (Some (DPlain 0%nat)) None) true false) = XOrNone (XReg (Some (DPlain 0%nat))) /\
+  unpack_special_typing_primitive no_rtp (DS tv true false) = XValue /\
+  (* meaning *)
+  xden w_co2 w_D w_eid (unpack_special_typing_primitive no_rtp (DS (DUnion [DPlain 0; DScalar KNone]) true false)) (UStr "2020-01-01")
+    = Some (UObj "date" "datetime.date(2020, 1, 1)") /\
+  xden w_co2 w_D w_eid (unpack_special_typing_primitive no_rtp (DS (DUnion [DPlain 0; DScalar KNone]) true false)) UNone = Some UNone /\
+  xden w_co2 w_D w_eid (unpack_special_typing_primitive no_rtp (DS (DUnion [DPlain 0; DScalar KNone]) true false)) (UStr "garbage") = None /\
+  xden w_co2 w_D w_eid (unpack_special_typing_primitive no_rtp (DS (DUnion [DScalar KInt; DScalar KNone; DPlain 0]) true false)) (UStr "garbage")
+    = Some UNone.
+Proof. cbv zeta. repeat split; reflexivity. Qed.
+
 (* ---------- encode ---------- *)
 
 Definition C11_union_encode_full : Prop :=
@@ -339,6 +508,102 @@ Example C11_deep_encode_nonvacuous :
   qsafe t v = true /\ qenc t v = Some (UDict [(UStr "k", UList [UList [UStr "a"; UStr "2020-01-01"]; UNone])]) /\
   qenc t (UDict [(UStr "k", UTuple [UInt 5; d])]) = Some (UDict [(UStr "k", UList [UInt 5; UStr "2020-01-01"])]) /\
   qenc t (UDict [(UStr "k", UTuple [UFloat None "1.5"; UNone])]) = None.
+Proof. cbv zeta. repeat split; reflexivity. Qed.
+
+(* ---------- K43a: which members are the "basic scalar members" ---------- *)
+(* the creators unpack_any / unpack_number / unpack_bool / unpack_none, the str branch of unpack_collection and
+   their pack counterparts are re-translated from /repo on every run (oty: the origin type they test) *)
+
+(* int / float / bool / str / NoneType get a TypeMatchEligibleExpression of their OWN coercion: the MS k of
+   union_dec (exact-type statement + coerce k as the fallback), no cross-coercion is ever emitted *)
+Theorem C11_scalar_members_tme : forall k, scalar_unpack (origin_of k) = Some (STme k).
+Proof. exact scalar_members_tme. Qed.
+Print Assumptions C11_scalar_members_tme.
+
+(* their packer is the expression "value": the identity members of pack_union *)
+Theorem C11_scalar_members_identity_packer : forall k, scalar_pack (origin_of k) = Some SValue.
+Proof. exact scalar_members_identity_packer. Qed.
+Print Assumptions C11_scalar_members_identity_packer.
+
+Theorem C11_tme_only_scalars : forall o k, scalar_unpack o = Some (STme k) ->
+  o = origin_of k \/ (o = ONonePy /\ k = KNone) \/ (o = OStr true /\ k = KStr).
+Proof. exact tme_only_scalars. Qed.
+Print Assumptions C11_tme_only_scalars.
+
+(* at most one of the five creators answers for a type (bool is not a number here), so their order is irrelevant *)
+Theorem C11_scalar_creators_exclusive : forall o,
+  (fold_right Nat.add 0 (map (fun f => match f o with Some _ => 1 | None => 0 end)
+                             [unpack_any; unpack_number; unpack_bool; unpack_none; unpack_str]) <= 1)%nat.
+Proof. exact creators_exclusive. Qed.
+Print Assumptions C11_scalar_creators_exclusive.
+
+(* the member that K19's emission loop sees for a basic scalar type is SM k, i.e. MS k of the model *)
+Theorem C11_scalar_type_is_scalar_member : forall k e dec,
+  mspec_of (origin_of k) e dec = SM k /\ to_member (mspec_of (origin_of k) e dec) = MS k /\ is_tme (mspec_of (origin_of k) e dec) = true.
+Proof. exact scalar_type_is_scalar_member. Qed.
+Print Assumptions C11_scalar_type_is_scalar_member.
+
+(* ---------- serialization of member VALUES: typing membership inside the model ---------- *)
+(* rty = pty whose leaves carry their membership; rconf r v: v is a value of type r (Optional: None or the
+   argument, Union: some member, containers: exact class and every item); rmem: at every union the FIRST
+   member, in declaration order, to which the value BELONGS packs it (the property's encode_member);
+   renc = the generated packer (qenc, pack_union at union positions). *)
+Definition C11_member_value_full : Prop :=
+  forall r v, rleaves r -> rconf r v = true -> qcoh (to_pty r) v -> renc r v = rmem r v.
+
+(* rwd: along the members the value belongs to, the branches that fire on it agree (hereditary wire_disjoint).
+   Conclusion: the value is packed as by its member, and packing does not raise. *)
+Theorem C11_member_value_partial : forall r v,
+  rleaves r -> rconf r v = true -> qcoh (to_pty r) v -> rwd r v = true ->
+  renc r v = rmem r v /\ rmem r v <> None.
+Proof. exact (fun r v => member_value_partial r v). Qed.
+Print Assumptions C11_member_value_partial.
+
+(* Union[List[int], List[date]] holding [date(..)]: belongs to the second member only, the first packer takes it *)
+Definition w_enc1 (v: uv) : option uv := match v with UList _ => Some v | _ => None end.
+Definition w_conf1 (v: uv) : bool := match v with UList [UInt _] => true | _ => false end.
+Definition w_enc2 (v: uv) : option uv :=
+  match v with UList [UObj c _] => if String.eqb c "date" then Some (UList [UStr "2020-01-01"]) else None | _ => None end.
+Definition w_conf2 (v: uv) : bool := match v with UList [UObj c _] => String.eqb c "date" | _ => false end.
+
+Lemma w_leaf1 : leaf_ok "list" false w_enc1 w_conf1.
+Proof. intros v H. destruct v; try discriminate H. split; [discriminate | intro E; discriminate E]. Qed.
+Lemma w_leaf2 : leaf_ok "list" false w_enc2 w_conf2.
+Proof.
+  intros v H. destruct v as [| | | | |l| | |]; try discriminate H.
+  destruct l as [|x l']; try discriminate H. destruct x; try discriminate H. destruct l'; try discriminate H.
+  simpl in *. rewrite H. split; [discriminate | intro E; discriminate E].
+Qed.
+
+Theorem C11_member_value_refuted : ~ C11_member_value_full.
+Proof.
+  intro H.
+  specialize (H (RU [(1%nat, RLeaf "list" false w_enc1 w_conf1); (2%nat, RLeaf "list" false w_enc2 w_conf2)])
+                (UList [UObj "date" "datetime.date(2020, 1, 1)"])).
+  assert (L: rleaves (RU [(1%nat, RLeaf "list" false w_enc1 w_conf1); (2%nat, RLeaf "list" false w_enc2 w_conf2)])).
+  { simpl. split; [exact w_leaf1 | split; [exact w_leaf2 | exact I]]. }
+  assert (Q: qcoh (to_pty (RU [(1%nat, RLeaf "list" false w_enc1 w_conf1); (2%nat, RLeaf "list" false w_enc2 w_conf2)]))
+                  (UList [UObj "date" "datetime.date(2020, 1, 1)"])).
+  { simpl. split; [|repeat split].
+    intros a b Ha Hb _ _ Hk. simpl in Ha, Hb.
+    destruct Ha as [Ha|[Ha|[]]]; destruct Hb as [Hb|[Hb|[]]]; subst; simpl in Hk; try discriminate Hk; reflexivity. }
+  specialize (H L eq_refl Q). discriminate H.
+Qed.
+Print Assumptions C11_member_value_refuted.
+
+Example C11_member_value_nonvacuous :
+  let dt := RLeaf "date" false (fun v => match v with UObj c _ => if String.eqb c "date" then Some (UStr "2020-01-01") else None | _ => None end)
+                  (fun v => match v with UObj c _ => String.eqb c "date" | _ => false end) in
+  let it := RLeaf "int" true Some (fun v => match v with UInt _ => true | _ => false end) in
+  let r := RDict (RTupF [RList (RU [(1%nat, it); (2%nat, dt)]); ROpt (RU [(1%nat, dt); (2%nat, it)])]) in
+  let d := UObj "date" "datetime.date(2020, 1, 1)" in
+  let v := UDict [(UStr "k", UTuple [UList [UInt 1; d]; UNone])] in
+  rconf r v = true /\ rwd r v = true /\
+  renc r v = Some (UDict [(UStr "k", UList [UList [UInt 1; UStr "2020-01-01"]; UNone])]) /\
+  rmem r v = renc r v /\
+  (* a list is not a value of Tuple[...], a float not a member of Union[int, date] *)
+  rconf r (UDict [(UStr "k", UList [UList [UInt 1]; UNone])]) = false /\
+  rconf r (UDict [(UStr "k", UTuple [UList [UFloat None "1.5"]; UNone])]) = false.
 Proof. cbv zeta. repeat split; reflexivity. Qed.
 
 (* ---------- Literal (after fix 0e88a65: the class of the value is compared too) ---------- *)
